@@ -51,6 +51,24 @@ fn topic_of_kind(n: usize, kind: u8) -> String {
     if kind == 0 {
         return topic_of(n);
     }
+    if kind >= 2 {
+        // characters at the ends that a careless decoder might trim: U+FEFF, spaces, slashes
+        let (head, tail) = match kind {
+            2 => ("\u{feff}", ""),
+            3 => (" ", " "),
+            4 => ("/", "/"),
+            _ => ("", "\u{feff}"),
+        };
+        if n < head.len() + tail.len() + 1 {
+            return topic_of(n);
+        }
+        let mut s = String::from(head);
+        while s.len() < n - tail.len() {
+            s.push((b'a' + (s.len() % 26) as u8) as char);
+        }
+        s.push_str(tail);
+        return s;
+    }
     // '+', '#', '$' and the space come early so that short topics have them too
     let lead = "+#$ r/";
     let mut s = String::new();
@@ -455,6 +473,18 @@ fn cases(tier: Tier) -> Vec<Case> {
             for position in 0..4u8 {
                 for owned in [None, Some(4usize), Some(6)] {
                     v.push(Case { topic_len: Some(t), corr_len: cl, position, in_qos: (t % 2) as u8, add_user_props: (t % 3) as u8, owned, topic_kind: 1, same_topic: false, in_flags: 0, decoy: 0 });
+                }
+            }
+        }
+    }
+    // response topics with U+FEFF, spaces or slashes at their ends
+    for topic_kind in 2..6u8 {
+        for t in [3usize, 4, 14, 20, 128, 130] {
+            for cl in [None, Some(5usize)] {
+                for position in 0..4u8 {
+                    for owned in [None, Some(4usize), Some(6)] {
+                        v.push(Case { topic_len: Some(t), corr_len: cl, position, in_qos: (t % 2) as u8, add_user_props: (t % 3) as u8, owned, topic_kind, same_topic: false, in_flags: 0, decoy: 0 });
+                    }
                 }
             }
         }
